@@ -1,7 +1,7 @@
 """C16 — Tables, arrays and maps obey ordered-container laws under any call sequence.
 
 A case is `ops <kind> <oplist>`: a history of API calls on one container
-(kind: table | inline | inline_tl | array | aot | map_sorted | map_ordered).  The harness
+(kind: table | inline | inline_tl | array | aot | map_sorted | map_ordered; oracle-only kinds: table_tl | doc).  The harness
 (harness/src/bin/c16.rs) replays it on the real container, the driver (coq/Extract/Cmd_c16.v)
 on the Coq model; both print `<out of call 1>;<out of call 2>;...|<final observation>`.
 
@@ -23,7 +23,18 @@ The two `toml::Map` configurations live in two builds of the harness.  The main 
 (`EXTRA_HARNESS["po"]`, feature `po` = toml/preserve_order), obtained in one batch on first use and
 cached by case line — so map_ordered cases count for the verdict exactly like all others.
 
-Known classes: none.  The former class C16-placeholder-residue (write / entry paths treated an `Item::None`
+Calls outside the modelled universe (lib/scan_api.py class `exercised-by-harness`; the Coq driver is not asked, `compare` skips them):
+  * extra calls on the seven kinds (ORACLE_ONLY: entry_format, or_insert_with, Entry::key, OccupiedEntry::{key_mut, get_mut, into_mut},
+    VacantEntry::key, IntoIterator for &C / &mut C, get_values, Map::with_capacity, toml::Value projections of a Map, IndexMut of
+    InlineTable, Display for ArrayOfTables), judged by the same python reference;
+  * kind `table_tl`: a standard Table through `dyn TableLike` (the calls of inline_tl), same reference;
+  * kind `doc`: flag / position / formatting setters, TableLike::insert / entry with ANY item, Item conversions on every shape,
+    Array::fmt / sort_by over mixed kinds, ArrayOfTables::retain / iter_mut / get_mut, replacing the root item - on a whole DocumentMut
+    (see `doc_verdict`: no call panics, the text is valid TOML and holds the data of the tree, both read APIs show the same tree).
+    Four known classes live here (decided on the implementation's line): C16-tablelike-insert-none-panics,
+    C16-inline-read-panics-on-non-value, C16-root-not-a-table-print-panics, C16-raw-flag-setters-move-content.
+
+Known classes of the seven modelled kinds: none.  The former class C16-placeholder-residue (write / entry paths treated an `Item::None`
 placeholder left by `&mut c[k]` as a real entry: insert / remove returned Some(Item::None), entry().or_insert stored
 nothing, Table::into_iter yielded it, key() was Some, InlineTable::entry turned it into `{}`, get_or_insert panicked,
 the position was kept) was repaired in /repo (Table / InlineTable::remove_placeholder at the head of every write and
@@ -78,6 +89,17 @@ AVAIL = {
                  "iget iset".split()),
     "aot": set("push rm get getm len emp iter iterm clr ret ext from into idx iget iset".split()),
 }
+# calls judged by the python reference only (the Coq driver does not know them; `compare` skips such histories):
+# entry_format, or_insert_with, Entry::key, OccupiedEntry::{key_mut, get_mut, into_mut}, VacantEntry::key, IntoIterator for
+# &C / &mut C, get_values, Map::with_capacity, Display for ArrayOfTables (lib/scan_api.py: class exercised-by-harness)
+ORACLE_ONLY = set("entf eoiw ekey emut intor intom gv cap disp vget vset varr idxmi fmt dot".split())
+AVAIL["table"] |= set("entf eoiw ekey emut intor gv".split())
+AVAIL["inline"] |= set("entf eoiw ekey emut intor gv idxmi".split())
+AVAIL["map_sorted"] |= set("eoiw ekey emut intor intom cap vget vset varr".split())
+AVAIL["inline_tl"] |= set("gv fmt dot".split())
+AVAIL["table_tl"] = set(AVAIL["inline_tl"])          # a standard Table through `dyn TableLike`: oracle-only kind (no Coq counterpart)
+AVAIL["array"] |= set(["intor"])
+AVAIL["aot"] |= set(["intor", "disp"])
 AVAIL["map_ordered"] = AVAIL["map_sorted"]
 
 
@@ -97,7 +119,7 @@ class RefMap:
         self.ismap = kind in ("map_sorted", "map_ordered")
 
     def norm(self, p):
-        return "I" if (p == "T" and self.kind in ("inline", "inline_tl")) else p
+        return "I" if (p == "T" and self.kind in ("inline", "inline_tl", "table_tl")) else p
 
     def items(self):
         return sorted(self.d.items()) if self.sorted else list(self.d.items())
@@ -142,7 +164,7 @@ class RefMap:
             return str(len(d))
         if n == "emp":
             return "true" if not d else "false"
-        if n in ("iter", "iterm", "into"):
+        if n in ("iter", "iterm", "into", "intor", "intom"):
             return self.show_items()
         if n == "keys":
             return "[" + ",".join(k for k, _ in self.items()) + "]"
@@ -152,10 +174,40 @@ class RefMap:
             d.clear(); return "u"
         if n == "ent":
             return "occ:" + d[k] if k in d else "vac"
-        if n in ("eoi", "goi", "ioi"):
+        if n in ("eoi", "goi", "ioi", "entf", "eoiw"):
             if k not in d:
                 d[k] = p
             return d[k]
+        if n == "ekey":
+            return k
+        if n == "emut":
+            if k not in d:
+                return "vac:" + k
+            d[k] = p
+            return "occ:%s:%s" % (k, p) if self.ismap else "occ:%s/%s:%s" % (k, k, p)
+        if n == "gv":           # the key/value lines: values (an inline table is one value), not sub-tables
+            return str(sum(1 for v in d.values() if v != "T"))
+        if n == "cap":
+            self.d = {}; return "u"
+        if n == "fmt":
+            return "u"
+        if n == "dot":
+            return "false"
+        if n == "vget":
+            return "%s/%s" % (d.get(k, "-"), d.get(k, "-"))
+        if n == "vset":
+            if k not in d:
+                return "none"
+            d[k] = p; return p
+        if n == "varr":
+            vs = [v for _, v in self.items()][::-1]
+            if vs:
+                vs[0] = p
+            return "[" + ",".join(vs) + "]"
+        if n == "idxmi":
+            if k not in d:
+                return "P"
+            d[k] = p; return "u"
         if n == "eins":
             old = d.get(k, "vac"); d[k] = p; return old
         if n == "erm":
@@ -191,7 +243,7 @@ class RefMap:
     def printed(self):
         def pv(p):
             return p[1:] if p[0] == "i" else "{}"
-        if self.kind == "table":
+        if self.kind in ("table", "table_tl"):
             return "".join("%s = %s\n" % (k, pv(v)) for k, v in self.d.items() if v != "T")
         if not self.d:
             return "{}"
@@ -243,8 +295,10 @@ class RefVec:
             return str(len(v))
         if n == "emp":
             return "true" if not v else "false"
-        if n in ("iter", "iterm", "into"):
+        if n in ("iter", "iterm", "into", "intor"):
             return "[" + ",".join(map(str, v)) + "]"
+        if n == "disp":
+            return common.hexarg(("[" + ", ".join("{ id = %d }" % x for x in v) + "]").encode())
         if n == "clr":
             del v[:]; return "u"
         if n == "ret":
@@ -269,9 +323,354 @@ class RefVec:
 
 
 def reference_line(kind, ops):
-    r = RefMap(kind) if kind in MAPLIKE else RefVec(kind)
+    r = RefMap(kind) if kind in MAPLIKE + ("table_tl",) else RefVec(kind)
     outs = [r.call(op.split(",")) for op in ops.split(";") if op]
     return ";".join(outs) + "|" + r.observe()
+
+
+# ------------------------------------------------------------------------------------------
+# kind `doc`: editing entry points no other kind reaches, on a whole DocumentMut (oracle only)
+# ------------------------------------------------------------------------------------------
+# ops (harness/src/bin/c16.rs doc_op; P = path below the root, `-` = the root; X = payload i<z> | T | T1 | A | A1 | N | I | I1 | Y):
+#   new,<hex text>            parse the starting document
+#   simp,P,b spos,P,n         Table::set_implicit / set_position          sdot,P,b   TableLike::set_dotted (Table / InlineTable)
+#   kpre,P,k,<hex> kdecm,P,k,<hex> kdec,P,k kfmt,P,k    TableLike::key_mut + KeyMut::leaf_decor_mut / key_decor_mut / key_decor / KeyMut::fmt
+#   insn,P,k                  Table::insert(k, Item::None)
+#   tlins,P,k,X tleoi,P,k,X tlef,P,k,X    TableLike::insert / entry().or_insert / entry_format().or_insert_with with ANY item
+#   oi,P,k,X                  node[k].or_insert(X)  (IndexMut + Item::or_insert)
+#   intov,P intot,P intoa,P mkval,P       Item::into_value / into_table / into_array_of_tables (stored back) / make_value
+#   afmt,P asort,P apush,P,X atr,P,<hex>,b  Array::fmt / sort_by over mixed kinds / push_formatted / set_trailing + set_trailing_comma
+#   pre,P,<hex> dec,P,<hex>,<hex> deco,P,<hex>,<hex> dclr,P vfmt,P   InlineTable::set_preamble, decor_mut / Decor::new / set_prefix / set_suffix,
+#                             Value::decorated, Decor::clear, Formatted::fmt
+#   insk,P,<hex key text>,X   Key::parse + with_leaf_decor + with_dotted_decor + Table::insert_formatted
+#   disp,P icl,P pitem,P,<hex>   Display for Item, From<&Item>, Item::from_str
+#   aotret,P,k aotset,P,k,X   ArrayOfTables::retain / iter_mut / get_mut
+#   root,X trail,<hex>        *doc.as_item_mut() = X ; DocumentMut::set_trailing
+# observation: view=<tree through TableLike / Array views, flags kept> built=<tree through the inherent read API>
+#              text=<hex of to_string() | P> parse=ok|ERR got=<dump of the re-parsed text>
+# The oracle (no python model of the calls): no call panics; to_string() does not panic and is valid TOML; the inherent read API and
+# the TableLike view show the same tree; the re-parsed text holds the data of the tree (standard tables as maps; what the API documents
+# as not displayed - placeholders, implicit / dotted tables without anything printable, empty arrays of tables - left out).
+def _parse_view(s):
+    pos = [0]
+
+    def entries(close):
+        items = []
+        if s[pos[0]] == close:
+            pos[0] += 1
+            return items
+        while True:
+            j = s.index("=", pos[0])
+            k = s[pos[0]:j]
+            pos[0] = j + 1
+            items.append((k, node()))
+            c = s[pos[0]]
+            pos[0] += 1
+            if c == close:
+                return items
+            assert c == ",", s[pos[0] - 8:pos[0] + 8]
+
+    def seq():
+        out = []
+        if s[pos[0]] == "]":
+            pos[0] += 1
+            return out
+        while True:
+            out.append(node())
+            c = s[pos[0]]
+            pos[0] += 1
+            if c == "]":
+                return out
+            assert c == ","
+
+    def node():
+        i = pos[0]
+        if s[i] == "N" and (i + 1 == len(s) or s[i + 1] in ",}]"):
+            pos[0] += 1
+            return ("N",)
+        if s[i] == "T" and s[i + 1:i + 4].lstrip("md").startswith("{"):
+            j = s.index("{", i)
+            pos[0] = j + 1
+            return ("T", s[i + 1:j], entries("}"))
+        if s.startswith("A[", i):
+            pos[0] += 2
+            return ("A", seq())
+        if s[i] == "[":
+            pos[0] += 1
+            return ("a", seq())
+        if s[i] == "{":
+            dotted = s[i + 1] == "~"
+            pos[0] += 2 if dotted else 1
+            return ("I", "d" if dotted else "", entries("}"))
+        j = i
+        while j < len(s) and s[j] not in ",}]":
+            j += 1
+        pos[0] = j
+        return ("v", s[i:j])
+
+    n = node()
+    assert pos[0] == len(s), "trailing dump text"
+    return n
+
+
+def _raw_in_inline(n, inside=False):
+    """an inline table / array holds something that is not a value (what class C16-inline-read-panics-on-non-value is about)"""
+    if n[0] in ("T", "A", "N"):
+        if inside:
+            return True
+        kids = [c for _, c in n[2]] if n[0] == "T" else (n[1] if n[0] == "A" else [])
+        return any(_raw_in_inline(c, False) for c in kids)
+    if n[0] == "I":
+        return any(_raw_in_inline(c, True) for _, c in n[2])
+    if n[0] == "a":
+        return any(_raw_in_inline(c, True) for c in n[1])
+    return False
+
+
+def _printable(n):
+    if n[0] == "N":
+        return False
+    if n[0] == "A":
+        return bool(n[1])
+    if n[0] in ("T", "I") and n[1]:   # implicit / dotted: shown through what is below it only
+        return any(_printable(c) for _, c in n[2])
+    return True
+
+
+def _data(n):
+    """data of a (view or re-parsed) tree: tables of both kinds as maps, what is not displayed left out"""
+    if n[0] == "v":
+        return n[1]
+    if n[0] in ("a", "A"):
+        return (n[0], [_data(c) for c in n[1]])
+    if n[0] in ("T", "I"):
+        return {k: _data(c) for k, c in n[2] if _printable(c)}
+    return None
+
+
+def _strip(n):
+    """the view without flags and placeholders: what the inherent read API must show"""
+    if n[0] == "T":
+        return "T{%s}" % ",".join("%s=%s" % (k, _strip(c)) for k, c in n[2] if c[0] != "N")
+    if n[0] == "I":
+        return "{%s}" % ",".join("%s=%s" % (k, _strip(c)) for k, c in n[2] if c[0] != "N")
+    if n[0] == "A":
+        return "A[%s]" % ",".join(_strip(c) for c in n[1])
+    if n[0] == "a":
+        return "[%s]" % ",".join(_strip(c) for c in n[1])
+    return n[1] if n[0] == "v" else "N"
+
+
+KEY_PARSE = {}
+
+
+def _flag_misuse(calls):
+    """set_implicit / set_dotted / set_position are raw field setters; they change what the text MEANS when used on the root table
+    (its key/value lines vanish or are printed behind another header), on an element of an array of tables / of an array (a dotted
+    element is not printed), or - set_position - in a document with arrays of tables (elements are reordered, sub-tables re-attach)"""
+    aot = any(c.startswith("new,") and b"[[" in bytes.fromhex(c.split(",")[1]) for c in calls)
+    for c in calls:
+        f = c.split(",")
+        if f[0] in ("simp", "sdot", "spos") and (f[1] == "-" or f[1].split("/")[-1].startswith("#") or (f[0] == "spos" and aot)):
+            return True
+    return False
+
+
+def doc_verdict(ops, il):
+    """-> (reason | None, known class | None)"""
+    if "|" not in il:
+        return "malformed line %r" % il, None
+    outs, obs = il.split("|", 1)
+    outs = outs.split(";")
+    calls = [o for o in ops.split(";") if o]
+    d = dict(x.split("=", 1) for x in obs.split(" "))
+    for n, (c, o) in enumerate(zip(calls, outs)):
+        if o == "P":
+            f = c.split(",")
+            known = "C16-tablelike-insert-none-panics" if (f[0] == "tlins" and f[3] == "N") else None
+            return "doc: call %d `%s` panicked" % (n + 1, c), known
+    view = _parse_view(d["view"])
+    if d["text"] == "P":
+        return ("doc: to_string() panicked (root item: %s)" % d["view"][:40],
+                "C16-root-not-a-table-print-panics" if view[0] != "T" else None)
+    raw = _raw_in_inline(view)
+    if d["built"] == "P":
+        return ("doc: the inherent read API (InlineTable::iter) panicked on the tree %s" % d["view"][:120],
+                "C16-inline-read-panics-on-non-value" if raw else None)
+    if not raw and d["built"] != _strip(view):
+        return "doc: the inherent read API shows %s, the TableLike view %s" % (d["built"], _strip(view)), None
+    misuse = "C16-raw-flag-setters-move-content" if _flag_misuse(calls) else None
+    if d.get("parse") != "ok":
+        return "doc: the printed text is not valid TOML: %r" % bytes.fromhex(d["text"] if d["text"] != "-" else ""), misuse
+    if _data(_parse_view(d["got"])) != _data(view):
+        return ("doc: the printed text %r re-parses to %s, the tree holds %s"
+                % (bytes.fromhex(d["text"] if d["text"] != "-" else ""), d["got"], d["view"]),
+                "C16-inline-read-panics-on-non-value" if raw else misuse)
+    return None, None
+
+
+DOC_BASES = [
+    # (text, table-like paths, array paths, aot paths, value paths, keys per table-like path)
+    (b"a = 1\nb = \"s\" # c\n[t]\nx = 1\ny = [1, 2]\n[t.u]\nz = true\n",
+     ["-", "t", "t/u"], ["t/y"], [], ["a", "b", "t/x"], {"-": ["a", "b", "t"], "t": ["x", "y", "u"], "t/u": ["z"]}),
+    (b"i = { p = 1, q = { r = 2 } }\nd.e.f = 1\nd.g = 2\n",
+     ["-", "i", "i/q", "d", "d/e"], [], [], ["i/p", "d/g"], {"-": ["i", "d"], "i": ["p", "q"], "i/q": ["r"], "d": ["e", "g"], "d/e": ["f"]}),
+    (b"[[s]]\nn = 1\n[s.sub]\nv = 1\n[[s]]\nn = 2\n[[s]]\nm = 3\n[w]\n",
+     ["-", "s/#0", "s/#0/sub", "s/#1", "w"], [], ["s"], ["s/#0/n"], {"-": ["s", "w"], "s/#0": ["n", "sub"], "s/#1": ["n"], "w": []}),
+    (b"m = [1, \"s\", {x = 1}, 2.5, true, \"t\", 3]\ne = []\nh = [{a = 1}, {b = 2}]\n[x.y]\n[x.z]\nk = 1\n",
+     ["-", "x", "x/y", "x/z", "m/#2", "h/#0"], ["m", "e", "h"], [], ["m/#0", "x/z/k"], {"-": ["m", "e", "h", "x"], "x": ["y", "z"], "x/z": ["k"], "m/#2": ["x"], "h/#0": ["a"]}),
+]
+DOC_TEXTS = ["20", "2020", "2320630a", "0a", "-"]           # white space / comment texts for the formatting setters
+DOC_PAY = ["i1", "i7", "T", "T1", "A", "A1", "N", "I", "I1", "Y"]
+DOC_KEYTEXT = [b"k", b"\"q r\"", b"'c '", b"a.b", b"\"\""]
+
+
+DOC_CALLS = ["simp", "spos", "sdot", "kpre", "kdecm", "kdec", "kfmt", "insn", "tlins", "tlins", "tleoi", "tleoi", "tlef", "oi",
+             "intov", "intot", "intoa", "mkval", "afmt", "asort", "apush", "atr", "pre", "dec", "deco", "dclr", "vfmt",
+             "insk", "disp", "icl", "pitem", "aotret", "aotset", "trail", "root"]
+DOC_KIND_CHANGING = {"sdot", "tlins", "tleoi", "tlef", "oi", "intov", "intot", "intoa", "mkval", "pitem", "icl", "aotset", "root", "insk", "insn"}
+
+
+def doc_history(rng, n_ops):
+    text, tls, arrs, aots, vals, keys = rng.choice(DOC_BASES)
+    ops = ["new," + text.hex()]
+    fresh = ["n1", "n2"]
+    # Texts with a comment / newline are legal only in front of a key/value line or a header of a STANDARD table.  What kind a node
+    # has changes along a history (into_value / make_value / a converting TableLike::insert make inline tables, into_table the
+    # reverse, set_dotted moves lines under another key, a parsed item replaces a value ...), so such texts are only drawn in
+    # histories in which no call changes the kind or the place of any node (`calm`); everywhere else white space only.
+    names = [rng.choice(DOC_CALLS) for _ in range(n_ops)]
+    calm = not any(n in DOC_KIND_CHANGING for n in names)
+    for r in names:
+        tl = rng.choice(tls)
+        k = rng.choice((keys.get(tl) or fresh) + fresh)
+        anyp = rng.choice(tls + arrs + aots + vals)
+        misuse = rng.random() < 0.04          # the raw flag setters where they change content (class C16-raw-flag-setters-move-content)
+        plain = [t for t in tls if t != "-" and not t.split("/")[-1].startswith("#")]
+        if r in ("simp", "sdot"):
+            ops.append("%s,%s,%d" % (r, tl if misuse else rng.choice(plain), rng.randrange(2)))
+        elif r == "spos":
+            if misuse or not aots:
+                ops.append("spos,%s,%d" % (tl if misuse else rng.choice(plain), rng.randrange(6)))
+        elif r == "kpre":
+            # a comment / newline in front of a key: only where the key starts a key/value line of a standard table
+            line_key = k in [v.split("/")[-1] for v in vals] and tl in ("-", "t", "t/u", "d", "x/z", "s/#0")
+            ops.append("kpre,%s,%s,%s" % (tl, k, rng.choice(DOC_TEXTS if (line_key and calm) else DOC_TEXTS[:2] + ["-"])))
+        elif r == "kdecm":
+            ops.append("kdecm,%s,%s,%s" % (tl, k, rng.choice(["20", "2020", "-"])))
+        elif r in ("kdec", "kfmt", "insn"):
+            ops.append("%s,%s,%s" % (r, tl, k))
+        elif r in ("tlins", "tleoi", "tlef", "oi"):
+            ops.append("%s,%s,%s,%s" % (r, tl, k, rng.choice(DOC_PAY)))
+        elif r in ("intov", "intot", "intoa", "mkval", "disp", "icl", "dclr", "vfmt"):
+            ops.append("%s,%s" % (r, anyp if anyp != "-" else rng.choice(vals)))
+        elif r in ("afmt", "asort"):
+            ops.append("%s,%s" % (r, rng.choice(arrs or ["a"])))
+        elif r == "apush":
+            ops.append("apush,%s,%s" % (rng.choice(arrs or ["a"]), rng.choice(["i1", "I1", "Y", "T1"])))
+        elif r == "atr":
+            ops.append("atr,%s,%s,%d" % (rng.choice(arrs or ["a"]), rng.choice(["20", "0a", "2320630a", "-"]), rng.randrange(2)))
+        elif r == "pre":
+            ops.append("pre,%s,%s" % (rng.choice(["i", "i/q", "m/#2", tl]), rng.choice(["20", "-"])))
+        elif r in ("dec", "deco"):
+            v = rng.choice(vals)
+            std = [t for t in plain if t.split("/")[0] not in ("i", "m", "h")]
+            on_table = r == "dec" and std and rng.random() < 0.3
+            line_value = calm and not on_table and r == "dec" and v.split("/")[0] not in ("i", "m", "h")
+            ops.append("%s,%s,%s,%s" % (r, rng.choice(std) if on_table else v, rng.choice(["20", "2020", "-"]),
+                                        rng.choice(["20", "-", "2320780a"] if line_value else ["20", "-"])))
+        elif r == "insk":
+            ops.append("insk,%s,%s,%s%s" % (rng.choice([t for t in tls if "#" not in t or t.startswith("s")]),
+                                            rng.choice(DOC_KEYTEXT).hex(), rng.choice(["i1", "T1", "I1"]), rng.choice(["", ",f"])))
+        elif r == "pitem":
+            ops.append("pitem,%s,%s" % (rng.choice(vals), rng.choice([b"[1, 2]", b"{x = 1}", b"\"s\"", b"1979-05-27", b"0x1f"]).hex()))
+        elif r in ("aotret", "aotset"):
+            a = rng.choice(aots or ["s"])
+            ops.append("aotret,%s,%s" % (a, rng.choice(["n", "m"])) if r == "aotret" else "aotset,%s,%s,%s" % (a, "zz", rng.choice(["i1", "T1", "I"])))
+        elif r == "trail":
+            ops.append("trail," + rng.choice(["2320656e640a", "0a", "-"]))
+        elif r == "root" and rng.random() < 0.3:
+            ops.append("root," + rng.choice(["T1", "i1", "I1", "A1", "N"]))
+    return ops
+
+
+DOC_WITNESSES = [
+    # TableLike::insert on an inline table: Item::Table / ArrayOfTables are converted, Item::None panics (inline_table.rs:612:
+    # `value.into_value().unwrap()`), where Table's impl stores the placeholder
+    (b"t = {a = 1}\n[u]\na = 1\n", "tlins,t,x,T1;tlins,t,y,A1;tlins,u,a,N;tlins,u,z,N"),
+    (b"t = {a = 1}\n", "tlins,t,x,N"),
+    # TableLike::entry / IndexMut + or_insert store a Table inside an inline table: InlineTable::iter panics, the printer drops it
+    (b"t = {a = 1}\n", "tleoi,t,x,T1"),
+    (b"t = {a = 1}\n", "oi,t,x,A1"),
+    (b"t = {a = 1}\n", "tlef,t,x,N;tlef,t,y,i5"),
+    # the root item replaced by something that is not a table: to_string() panics
+    (b"a = 1\n", "root,i1"),
+    (b"a = 1\n", "root,T1"),
+    # the raw flag setters where they change what the text means
+    (b"a = 1\n[t]\nx = 1\n", "sdot,-,1"),
+    (b"a = 1\n[t]\nx = 1\n", "spos,-,3"),
+    (b"[[s]]\nn = 1\n[[s]]\nn = 2\n", "sdot,s/#1,1"),
+    (b"[[s]]\nn = 1\n[s.sub]\nv = 1\n[[s]]\nn = 2\n", "spos,s/#0/sub,4"),
+    # flags, positions, key formatting
+    (b"[a]\nx = 1\n[a.b]\ny = 2\n[c]\n", "simp,a,1;simp,c,1;sdot,a/b,1;spos,a,5"),
+    (b"a.b.c = 1\n[t]\n", "sdot,a,0;sdot,a/b,0;simp,a,0"),
+    (b"t = { a.b = 1, c = 2 }\n", "sdot,t/a,0;sdot,t,1"),
+    (b"a = 1\n[t]\nb = 2\n", "kpre,-,a,2320630a;kpre,t,b,2020;kdec,-,a;kdecm,t,b,20;kdec,t,b;kfmt,t,b"),
+    (b"[t]\na = 1\n", "insn,t,a;insn,t,z;tlins,t,a,i2"),
+    (b"a = [1, \"s\", {x = 1}, 2.5, true, \"t\", 3]\n", "asort,a;afmt,a;atr,a,20,1;apush,a,Y"),
+    (b"[t]\na = 1\n[[u]]\nx = 1\n[[u]]\ny = 2\n", "intov,t;intov,u;intoa,u;intot,t;mkval,u;disp,u;icl,t"),
+    (b"[[u]]\nx = 1\n[[u]]\ny = 2\n[[u]]\nx = 3\n", "aotret,u,x;aotset,u,z,T1"),
+    (b"a = 0x10 # c\n\"b\" = \"s\"\n[t]\nx = 1\n", "kfmt,-,b;vfmt,a;dec,a,2020,2320780a;dec,t,2320680a,20;disp,a;disp,t;deco,b,20,-;dclr,b"),
+    (b"a = 1\n", "insk,-,2262202e2022,i5;insk,-,27632027,T1;insk,-,612e62,i1;pitem,a,5b312c20325d;trail,2320656e640a"),
+]
+
+
+def api_map_history(rng, kind):
+    keys = ["a", "b", "c"]
+    extra = [n for n in ("entf", "eoiw", "ekey", "emut", "intor", "intom", "gv", "cap", "vget", "vset", "varr", "idxmi", "fmt", "dot")
+             if n in AVAIL[kind]]
+    base = [n for n in ("ins", "ins", "rm", "idxm", "iter", "get", "len", "eoi", "erm") if n in AVAIL[kind]]
+    ops = []
+    for _ in range(rng.randrange(2, 14)):
+        n = rng.choice(extra if rng.random() < 0.55 else base)
+        k = rng.choice(keys)
+        if n in ("ins", "eoi", "entf", "eoiw", "emut", "vset", "varr", "idxmi"):
+            ops.append("%s,%s,%s" % (n, k, rand_pay(rng, kind)))
+        elif n in ("iter", "len", "intor", "intom", "gv", "fmt", "dot"):
+            ops.append(n)
+        elif n == "cap":
+            ops.append("cap,%d" % rng.randrange(5))
+        else:
+            ops.append("%s,%s" % (n, k))
+    return ops
+
+
+def api_cases(rng, quick):
+    out = []
+    for text, ops in DOC_WITNESSES:
+        out.append(mk_api("doc", ["new," + text.hex()] + ops.split(";"), "doc-witness"))
+    for _ in range(1500 if quick else 40000):
+        out.append(mk_api("doc", doc_history(rng, rng.randrange(1, 6)), "doc"))
+    for kind in ("table", "inline", "inline_tl", "map_sorted", "map_ordered"):
+        for _ in range(250 if quick else 6000):
+            out.append(mk_api(kind, api_map_history(rng, kind), "api"))
+    for _ in range(600 if quick else 20000):
+        ops = rand_map_history(rng, "inline_tl", KEYS3, 20)
+        out.append(mk_api("table_tl", ops + rng.choice([[], ["gv"], ["fmt", "iter"], ["dot"]]), "api"))
+    for kind in ("array", "aot"):
+        for _ in range(40 if quick else 500):
+            ops = rand_vec_history(rng, kind, 8) + ["intor"] + (["disp"] if kind == "aot" else [])
+            out.append(mk_api(kind, ops, "api"))
+    return out
+
+
+def mk_api(kind, ops, gen):
+    return Case("ops", [kind.encode(), ";".join(ops).encode()], {"kind": "%s/%s" % (kind, gen), "nt": True})
+
+
+def oracle_only(case):
+    kind, ops = case.args[0].decode(), case.args[1].decode()
+    return kind in ("doc", "table_tl") or any(o.split(",")[0] in ORACLE_ONLY for o in ops.split(";"))
 
 
 # ------------------------------------------------------------------------------------------
@@ -475,6 +874,7 @@ def gen_cases(rng, tier):
     for kind in ("table", "inline"):
         for _ in range(n_long * 3 // 4):
             out.append(mk_long(kind, long_map_history(rng, kind)))
+    out += api_cases(rng, quick)
     del _ALL[:]
     _ALL.extend(out)
     return out
@@ -561,10 +961,32 @@ def _impl(case, impl_line):
 
 
 def compare(case, model_line, impl_line):
+    if oracle_only(case):
+        return None               # calls the Coq model does not have: judged by the python reference alone
     il = _impl(case, impl_line)
     if model_line == il:
         return None
     return "model and implementation differ"
+
+
+API_COUNTS = {}
+
+
+def obligations():
+    """the inventory of the public container / editing / construction API (lib/scan_api.py: pub fns and public-trait impls of the
+    toml_edit node types and of toml::{Map, Table, Value}) must equal coq/Model/api_coverage.json, and every function in it must
+    carry a class, a note and - where it claims coverage - the operations that call it.  A function that appears, disappears or
+    changes its signature breaks the tie: the operation universes of C16 / C08 / C06 have to be revisited."""
+    import scan_api
+    scan_api.REPO = common.REPO
+    out = [("api-inventory", d) for d in scan_api.compare()[:20]]
+    out += [("api-inventory", "public function without a complete classification in coq/Model/api_coverage.json: " + scan_api.show(scan_api.key(e)))
+            for e in scan_api.unclassified()[:20]]
+    API_COUNTS.clear()
+    API_COUNTS.update(scan_api.class_counts())
+    API_COUNTS["files_scanned"] = len(scan_api.FILES)
+    API_COUNTS["tie"] = "broken" if out else "holds"
+    return out
 
 
 def oracle(case, impl_line):
@@ -572,6 +994,8 @@ def oracle(case, impl_line):
     il = _impl(case, impl_line)
     if il.startswith(("PANIC", "CRASH", "TIMEOUT")):
         return "implementation crashed: " + il
+    if kind == "doc":
+        return doc_verdict(ops, il)[0]
     want = reference_line(kind, ops)
     if il == want:
         return None
@@ -590,7 +1014,12 @@ def oracle(case, impl_line):
 
 
 def known_class(case, impl_line):
-    return None      # no known class is left (C16-placeholder-residue and C16-tablelike-placeholder are repaired)
+    """the container kinds have no known class left (C16-placeholder-residue and C16-tablelike-placeholder are repaired);
+    kind `doc` (entry points outside the modelled universe) has four, decided on the implementation's own line"""
+    kind, ops = _kind_ops(case)
+    if kind != "doc" or impl_line.startswith(("PANIC", "CRASH", "TIMEOUT")):
+        return None
+    return doc_verdict(ops, impl_line)[1]
 
 
 def nontrivial(case, impl_line):
@@ -606,7 +1035,7 @@ def extra_coverage(cases, impl, model):
         if k in TABLELIKE and "idxm," in c.args[1].decode():
             with_placeholder += 1
     return {"histories_per_container": kinds, "histories_creating_a_placeholder": with_placeholder,
-            "map_ordered_cases_run_on_preserve_order_build": len(_po_cache)}
+            "map_ordered_cases_run_on_preserve_order_build": len(_po_cache), "api_inventory": dict(API_COUNTS)}
 
 
 def search(rng, ctx):
